@@ -1734,6 +1734,19 @@ func (w *world) sweeps() {
 				w.out(fmt.Sprintf("kt tag %d 3 1 %s", vlib.Pick(r, flagChoices), hexStr(b64(b))))
 				w.out(fmt.Sprintf("kt tag %d 3 1 %s", vlib.Pick(r, flagChoices), hexStr(wrap(r, b64(b)))))
 			}
+			// wrapped texts longer than one 256-character chunk, at widths that do and do not divide the chunk:
+			// a run of material straddles the chunk boundary with every remainder modulo four
+			for _, n := range []int{193, 260, 400} {
+				text := b64(r.Bytes(n))
+				for _, width := range []int{1, 7, 13, 61, 62, 63, 64, 76, 90, 255, 257} {
+					nl := vlib.Pick(r, []string{"\n", "\r\n", "\r"})
+					var wrapped strings.Builder
+					for i := 0; i < len(text); i += width {
+						wrapped.WriteString(text[i:min(i+width, len(text))] + nl)
+					}
+					w.out(fmt.Sprintf("kt tag %d 3 1 %s", vlib.Pick(r, flagChoices), hexStr(wrapped.String())))
+				}
+			}
 			// decoding that fails part-way, in the first and in a later chunk: the library keeps the octets
 			// decoded before the error and takes the tag from them
 			for _, n := range []int{6, 45, 189, 192, 201, 400} {
@@ -1875,6 +1888,53 @@ func (w *world) sweeps() {
 					w.out(fmt.Sprintf("rsa vfy 8 %s %s %s %s", hexStr(pk), vlib.Hex(signed), vlib.Hex(refHash(8, signed)), vlib.Hex(r.Bytes(128))))
 				}
 			}
+		}
+	}
+	// two different keys of one owner, class and algorithm with the same key tag, verified one after the
+	// other in this process: nothing may be remembered about a key under the name an RRSIG calls it by
+	for _, alg := range []uint8{13, 15} {
+		byTag := map[uint16]*signer{}
+		var a, b *signer
+		for t := 0; t < 3000 && a == nil; t++ {
+			var cand *signer
+			if alg == 13 {
+				cand = newECDSASigner(r, 13)
+			} else {
+				cand = newEdSigner(r)
+			}
+			kb, _ := stdDecode(cand.pub)
+			tag := refKeyTag(257, 3, alg, kb)
+			if prev, ok := byTag[tag]; ok && prev.pub != cand.pub {
+				a, b = prev, cand
+			}
+			byTag[tag] = cand
+		}
+		if a == nil {
+			continue
+		}
+		zl := genLabels(r, 1, 2, true)
+		ol := append(genLabels(r, 1, 1, true), zl...)
+		w.out("vfy new")
+		var cases []vcase
+		for _, s := range []*signer{a, b, a, b} {
+			if c, ok := w.signedCase(s, zl, ol, genRRset(r, joinWireName(ol), 1)); ok {
+				c.k.Hdr.Name = pres(joinWireName(zl)) // the same spelling of the owner for both keys
+				c.sig.SignerName = c.k.Hdr.Name
+				cases = append(cases, c)
+				w.out(c.line())
+			}
+		}
+		if len(cases) == 4 {
+			// each key's signature under the other key (tags agree, so only the arithmetic can refuse it)
+			x := cloneCase(cases[0])
+			x.k = cases[1].k
+			w.out(x.line())
+			y := cloneCase(cases[1])
+			y.k = cases[0].k
+			w.out(y.line())
+			// both keys offered, an RRset signed by the second
+			w.out(msgLine(cases[1].sig.SignerName, []*dns.DNSKEY{cases[0].k, cases[1].k}, []*dns.RRSIG{cases[1].sig}, cases[1].rrs, len(cases[1].rrs)))
+			w.out(msgLine(cases[0].sig.SignerName, []*dns.DNSKEY{cases[1].k, cases[0].k}, []*dns.RRSIG{cases[0].sig}, cases[0].rrs, len(cases[0].rrs)))
 		}
 	}
 	// one full verification group per kind of key, every run: RSA narrow and wide exponent, both curves, Ed25519
